@@ -17,6 +17,13 @@ import (
 
 var ctx = context.Background()
 
+// cancelledCtx: the fake never looks at the context (no call observes it), so a cancelled one changes nothing
+var cancelledCtx = func() context.Context {
+	c, cancel := context.WithCancel(context.Background())
+	cancel()
+	return c
+}()
+
 func classOfCode(code string) string {
 	switch code {
 	case "ValidationException":
@@ -53,6 +60,10 @@ func errOutcomeV2(err error) Outcome {
 	var c coder
 	if errors.As(err, &c) {
 		o["err"] = classOfCode(c.Code())
+		if o["err"] == "ConditionalCheckFailed" || o["err"] == "ResourceNotFound" {
+			// these two reach the caller as the SDK's exception types (errors.As), never as the library's internal error
+			o["untyped"] = true
+		}
 		return o
 	}
 	switch {
@@ -196,8 +207,26 @@ func runV2(c *v2.Client, o *Op) (out Outcome) {
 			out = crashOutcome(r)
 		}
 	}()
+	ctx := ctx
+	if o.Cancelled {
+		ctx = cancelledCtx
+	}
 	switch o.Op {
 	case "createTable":
+		if viaHelper(o) {
+			rng := ""
+			if o.Key.Range != nil {
+				rng = string(o.Key.Range[0])
+			}
+			if err := v2.AddTable(ctx, c, string(o.Table), string(o.Key.Hash[0]), rng); err != nil {
+				return errOutcomeV2(err)
+			}
+			res, err := c.DescribeTable(ctx, &dynamodb.DescribeTableInput{TableName: strptr(o.Table)})
+			if err != nil {
+				return errOutcomeV2(err)
+			}
+			return descOutV2(res.Table)
+		}
 		ks, ad := v2KeySchema(*o.Key)
 		in := &dynamodb.CreateTableInput{TableName: strptr(o.Table), KeySchema: ks, ProvisionedThroughput: v2Throughput(o.TP)}
 		if o.PPR {
@@ -242,6 +271,20 @@ func runV2(c *v2.Client, o *Op) (out Outcome) {
 		}
 		return descOutV2(res.Table)
 	case "updateTable":
+		if ix := indexViaHelper(o); ix != nil {
+			rng := ""
+			if ix.Key.Range != nil {
+				rng = string(ix.Key.Range[0])
+			}
+			if err := v2.AddIndex(ctx, c, string(o.Table), string(ix.Name), string(ix.Key.Hash[0]), rng); err != nil {
+				return errOutcomeV2(err)
+			}
+			res, err := c.DescribeTable(ctx, &dynamodb.DescribeTableInput{TableName: strptr(o.Table)})
+			if err != nil {
+				return errOutcomeV2(err)
+			}
+			return descOutV2(res.Table)
+		}
 		in := &dynamodb.UpdateTableInput{TableName: strptr(o.Table)}
 		for _, ch := range o.Changes {
 			if ch.Create != nil {
